@@ -470,6 +470,40 @@ def leaf_specs(tier, classes=None):
             add(dict(op="Sum", shape=list(s), axes=list(ax)))
             add(dict(op="Tile", shape=list(s), axes=list(ax)))
 
+    # a thin band of 4-D and 5-D arrays for the operators that are generic in the number of dimensions (several leading
+    # batch axes): loops over axes / hard-coded "last three axes" assumptions do not show in 1-3 dims
+    for s in ([2, 1, 2, 3], [1, 2, 2, 2], [2, 2, 1, 1, 2]):
+        nd = len(s)
+        add(dict(op="Identity", shape=list(s)))
+        add(dict(op="Reshape", oshape=[space.prod(s)], ishape=list(s)))
+        add(dict(op="Reshape", oshape=list(s), ishape=[space.prod(s)]))
+        add(dict(op="Transpose", ishape=list(s), axes=None))
+        add(dict(op="Transpose", ishape=list(s), axes=list(range(1, nd)) + [0]))
+        add(dict(op="Transpose", ishape=list(s), axes=[-1] + list(range(nd - 1))))
+        for ax in (None, [0], [-1], [0, -1], [1, 2], list(range(nd)), [-2, 0], [nd - 1, 1]):
+            for cen in (True, False):
+                add(dict(op="FFT", shape=list(s), axes=ax, center=cen))
+                add(dict(op="IFFT", shape=list(s), axes=ax, center=cen))
+            add(dict(op="Flip", shape=list(s), axes=ax))
+            add(dict(op="FiniteDifference", shape=list(s), axes=ax))
+            if ax is not None:
+                add(dict(op="Sum", shape=list(s), axes=ax))
+                add(dict(op="Tile", shape=list(s), axes=ax))
+                add(dict(op="Circshift", shape=list(s), shift=[(-1) ** i * (i + 1) for i in range(len(ax))], axes=ax))
+        add(dict(op="Circshift", shape=list(s), shift=list(range(1, nd + 1)), axes=None))
+        for cj in (False, True):
+            for m in ([s[-1]], list(s), [s[0]] + [1] * (nd - 1), [1] * (nd - 2) + list(s[-2:]), list(s[1:])):
+                add(dict(op="Multiply", ishape=list(s), mult={"mshape": m}, conj=cj))
+        add(dict(op="Resize", oshape=[max(1, v - 1) if i % 2 else v + 1 for i, v in enumerate(s)], ishape=list(s)))
+        add(dict(op="Resize", oshape=[v + 1 if i % 2 else max(1, v - 1) for i, v in enumerate(s)], ishape=list(s)))
+        add(dict(op="Downsample", shape=list(s), factors=[1 + (i % 2) for i in range(nd)], shift=None))
+        add(dict(op="Upsample", shape=list(s), factors=[2 - (i % 2) for i in range(nd)], shift=None))
+        add(dict(op="MatMul", ishape=list(s), mshape=[3, s[-2]], adjoint=False))
+        add(dict(op="MatMul", ishape=list(s), mshape=list(s[:-2]) + [s[-2], 2], adjoint=True))
+        add(dict(op="RightMatMul", ishape=list(s), mshape=[s[-1], 3], adjoint=False))
+        add(dict(op="ArrayToBlocks", shape=list(s), B=[1, 2], S=[1, 1]))
+        add(dict(op="BlocksToArray", shape=list(s), B=[1, 2], S=[1, 1]))
+
     def blk(D, Ns, Bs, Ss):
         for N in itertools.product(Ns, repeat=D):
             for B in itertools.product(Bs, repeat=D):
